@@ -60,6 +60,9 @@ pub fn templates() -> Vec<&'static str> {
         // run-time-only macros and functions nested in collections inside a foldable call
         "[1].map(z, [has($0)])", "zip([coalesce($0, 7)], [1])", "[1].map(z, [[has($0.a)]])", "[1].map(z, {'k': [coalesce($0, 1)]})",
         "[1].map(z, [has({'a': $0}.a), z])", "[[1].map(z, [coalesce(null, $0)])]",
+        // ... with a hole in the receiver, so that one rendering cannot be folded at all
+        "[$1].map(z, [has($0)])", "zip([coalesce($0, 7)], [$1])", "[$1].map(z, {'k': [coalesce($0, 1)]})", "[$1].map(z, [[has({'a': $0}.b)]])",
+        "[$0].map(z, [has(z)])", "[$0].map(z, [[coalesce(z, 1)]])", "[$0].filter(z, [has(z)][0])",
         "[1, 2, 3].map(x, x > $0, x * 2)", "[1, 2, 3].map(x, $0, x)", "{'a': 1}.map(k, k == $0, k)",
         // macros nested inside collections inside macro bodies
         "[1, 2].map(i, [i, [10, 20].filter(v, v > $0)])", "[1].map(x, {'id': x, 'tags': ['a', 'b'].map(t, t + $0)})",
